@@ -611,7 +611,8 @@ def gen_cases(rng, tier):
         # every position; the kinds rotate so that every (position, kind) pair is hit across programs (thorough: all kinds per position)
         for pos in range(n + 1):
             # (thorough: 35 full sweeps of all 33 kinds at every position -- as many (position, kind) pairs as the 70 sweeps of 20 kinds before)
-            ks = kinds if tier == "thorough" and p % 12 == 0 else [kinds[(p + pos) % len(kinds)], rng.choice(kinds)]
+            # (wave 6: 54 kinds; a full sweep at every 18th program keeps the number of (position, kind) pairs of the 36-kind sweeps at every 12th)
+            ks = kinds if tier == "thorough" and p % 18 == 0 else [kinds[(p + pos) % len(kinds)], rng.choice(kinds)]
             for kind in dict.fromkeys(ks):
                 if mode == "launcher" and pos == 0:
                     continue  # the launcher itself would fail while starting (it is related to the faulty flow)
@@ -1696,7 +1697,10 @@ def signature(case, obs, msg):
             for site in c.get("rtc_site", []):
                 # wave 6: raise sites outside every try block that a STATEMENT of a flow reaches (the exception is converted by process_events,
                 # but the round is abandoned: the flow is not failed, pending actions of other flows are lost and their heads stay parked)
-                if "_resolve_action_conflicts" in site:
+                if "_resolve_action_conflicts" in site and "create_umim_event" in site:
+                    # (only the VALIDATION of the outgoing event: an exception of the second evaluation of the statement's arguments —
+                    # get_event_from_element under _resolve_action_conflicts — is not this finding: on the pinned tree slide has evaluated
+                    # them before, inside the try block; seed C10-c)
                     return "error-raised-while-creating-action-event"
                 if "create_flow_instance" in site or ("_process_internal_events_without_default_matchers" in site and (meta["kind"] in ESCAPE_KINDS or meta["kind"] in LATE_ESCAPES)):
                     return "error-raised-while-creating-flow-instance"
